@@ -417,6 +417,6 @@ MANIFEST = dict(
          'decided by the solver and each object\'s record compared with the model at that bound; per region the real '
          'historical Connection is then walked concretely (graph, identity, read-only).',
     note='TimeStamp calendar arithmetic replaced by its ordering contract in the symbolic part; datetime forms by selector; '
-         'one graph history; packs older than the bound are outside (property excludes them).',
+         'one graph history; also packed to its middle (bounds not older than the pack); multi-database: two databases, secondary newer than the bound.',
     design_ref='DESIGN.md section 4, C15',
 )
